@@ -49,6 +49,72 @@ def _root_place(body, o, depth=8):
     return p
 
 
+def _explicit_comparison_form(F, b, rep):
+    """C10.dir / C10.size when the two sizes are compared with `<` / `==` instead of Ord::cmp (after a helper such as
+    `fit_padding(blocks, old, new) -> bool` was inlined): the branch where the new blocks are smaller grows the padding by
+    old - new, the other one shrinks it by new - old.  Returns False when this form is not present."""
+    def kind(o):
+        if op_place(o) is None:
+            return "?"
+        sl = backward_slice(b, o)
+        tys = " ".join(a for c in sl["calls"] for a in c["aty"]) + " ".join(callee_name(c) for c in sl["calls"]) + " " + " ".join(b.local_ty(l_) for l_ in [(_root_place(b, o) or {"l": 0})["l"]])
+        new, old = ("Sink" in tys or "io::sink" in tys), "BufReader" in tys
+        return "new" if new and not old else ("old" if old and not new else "?")
+    cmps = []
+    for bi, bl in enumerate(b.blocks):
+        for st_ in bl["s"]:
+            rv = st_["rv"]
+            if rv["r"] == "bin" and rv["op"] in ("Lt", "Gt") and {kind(rv["a"]), kind(rv["b"])} == {"new", "old"}:
+                cmps.append((bi, st_))
+    if len(cmps) != 1:
+        return False
+    bi, st_ = cmps[0]
+    rv = st_["rv"]
+    t = b.blocks[bi]["t"]
+    if not (t and t["t"] == "switch" and op_local(t["o"]) == st_["d"]["l"]):
+        return False
+    rep.check("C10.size", "comparison is between the re-serialised size and the size read", True, b.loc(st_["sp"]), "%s(%s, %s)" % (rv["op"], kind(rv["a"]), kind(rv["b"])))
+    true_is_new_smaller = (rv["op"] == "Lt") == (kind(rv["a"]) == "new")
+    false_t = [tb for v, tb in t["v"] if v == 0]
+    true_t = [tb for v, tb in t["v"] if v == 1] or ([t["else"]] if t.get("else") is not None else [])
+    if not false_t:
+        false_t = [t["else"]] if t.get("else") is not None else []
+    if not true_t or not false_t:
+        return False
+
+    def dirs_in(region):
+        out = []
+        for i, t2 in b.calls():
+            if i not in region:
+                continue
+            bodies_ = [F.body(c) for c in (t2.get("cls") or ())]
+            for nm in [strip_generics(callee_name(t2))] + [strip_generics(callee_name(t3)) for cb in bodies_ if cb is not None for _, t3 in cb.calls()]:
+                if nm == "metadata::BlockSize::checked_add":
+                    out.append("grow")
+                elif nm == "metadata::BlockSize::checked_sub":
+                    out.append("shrink")
+        return out
+
+    def diff_in(region):
+        out = []
+        for bj in sorted(region):
+            for s2 in b.blocks[bj]["s"]:
+                r2 = s2["rv"]
+                if r2["r"] == "bin" and r2["op"].startswith("Sub") and {kind(r2["a"]), kind(r2["b"])} == {"new", "old"}:
+                    out.append("%s-%s" % (kind(r2["a"]), kind(r2["b"])))
+        return out
+    for edge, new_smaller in ((true_t[0], true_is_new_smaller), (false_t[0], not true_is_new_smaller)):
+        region = blocks_only_via(b, bi, edge)
+        want = "grow" if new_smaller else "shrink"
+        got, dif = dirs_in(region), diff_in(region)
+        rep.check("C10.dir", "%s new size: padding %s by the difference" % ("smaller" if new_smaller else "larger", "grown" if new_smaller else "shrunk"),
+                  got == [want] and dif == (["old-new"] if new_smaller else ["new-old"]), b.loc(st_["sp"]), "%s / %s" % (got, dif),
+                  "when the new blocks are %s the padding must be %s by |old-new|; found %s with difference %s" % ("smaller" if new_smaller else "larger", "grown" if new_smaller else "shrunk", got, dif))
+    eqs = [1 for bl in b.blocks for s2 in bl["s"] if s2["rv"]["r"] == "bin" and s2["rv"]["op"] in ("Eq", "Ne") and {kind(s2["rv"]["a"]), kind(s2["rv"]["b"])} == {"new", "old"}]
+    rep.check("C10.dir", "equal sizes: padding untouched", len(eqs) == 1, loc_of(b), "", "no equality test of the two sizes in front of the padding adjustment")
+    return True
+
+
 def run(ctx, rep):
     from rules import invlib
     invlib.newtype_invariant(ctx, rep, "C10")
@@ -158,22 +224,32 @@ def run(ctx, rep):
 
     # ---- C10.dir -----------------------------------------------------------------------------------------
     cmpc = [(i, t) for i, t in b.calls() if re.search(r"Ord(>| for u64>)?::cmp$|cmp::Ord::cmp$", callee_name(t))]
-    if len(cmpc) != 1:
+    if len(cmpc) == 0 and _explicit_comparison_form(F, b, rep):
+        pass
+    elif len(cmpc) != 1:
         rep.bad("C10.dir", "anchor:size comparison", loc_of(b), "expected exactly one Ord::cmp in update_file, found %d" % len(cmpc))
     else:
         ci, ct = cmpc[0]
         A = _root_place(b, ct["a"][0])
         B = _root_place(b, ct["a"][1])
 
-        def kind(p):
+        def kind(p, o=None):
             ty = b.local_ty(p["l"]) if p else ""
             # count field of a Counter: which stream it counts
             if "Sink" in ty:
                 return "new"
             if "BufReader" in ty:
                 return "old"
+            # a plain number handed back by a measuring helper: what was it counted on?
+            if o is not None and op_place(o) is not None:
+                sl = backward_slice(b, o)
+                tys = " ".join(a for c in sl["calls"] for a in c["aty"]) + " ".join(callee_name(c) for c in sl["calls"])
+                if "Sink" in tys or "io::sink" in tys:
+                    return "new"
+                if "BufReader" in tys:
+                    return "old"
             return "?"
-        ka, kb = kind(A), kind(B)
+        ka, kb = kind(A, ct["a"][0]), kind(B, ct["a"][1])
         rep.check("C10.size", "comparison is between the re-serialised size and the size read", {ka, kb} == {"new", "old"}, loc_of(b, ct), "cmp(%s, %s)" % (ka, kb))
         # switch on the Ordering
         sw = None
